@@ -1,7 +1,7 @@
 """C12 — barrier: nobody passes round k before all arrived; reusable at once (structural part)."""
 from core import strip, is_field, key_mentions, order_ge, key_str
 from facts import AnalysisBroken
-from rules import (field_load, check_init, nodeset, ev, Unevaluable, forced_edges, atom_from, reach, atomic_ops, ret_const, is_var_load)
+from rules import (writer_kind, field_load, check_init, nodeset, ev, Unevaluable, forced_edges, atom_from, reach, atomic_ops, ret_const, is_var_load)
 from props import c01
 from props import deps
 
@@ -102,7 +102,7 @@ def run(ctx):
     for fn in P.unique_functions():
         for fld in ("counter", "count"):
             for s in fn.stores_to(B, fld):
-                kind = s.aop if s.kind in ("atomic", "sync") else "assign"
+                kind = writer_kind(s)
                 ok = (fn.name == "fiber_barrier_init" and kind == "assign") or (fld == "counter" and fn.name == "fiber_barrier_wait" and kind == "fetch_add")
                 if not ok:
                     bad = bad or ("`%s` in %s" % (s.node.text, fn.name), s.node)
